@@ -79,8 +79,8 @@ Definition new_obj (s : gw_state) (t : txn) : gw_state * N :=
   (s <| gw_objs := <[gw_next_obj s := t]> (gw_objs s) |> <| gw_next_obj := gw_next_obj s + 1 |>,
    gw_next_obj s).
 
-(* TransactionBase.finish of object g: stop its timer, run its finally callback (which
-   deletes the store slot of its key, whoever is there), close done. *)
+(* TransactionBase.finish of object g: stop its timer, run its finally callback (which deletes the
+   store slot of its key if the slot still holds this object: TransactionStore.DeleteIf), close done. *)
 Definition finish_obj (s : gw_state) (g : N) : gw_state :=
   match gw_objs s !! g with
   | None => s
@@ -90,7 +90,10 @@ Definition finish_obj (s : gw_state) (g : N) : gw_state :=
     match t with
     | TxConnect _ _ => s <| gw_connect := None |>
     | TxClientPub1 mid _ | TxSubscribe mid _ | TxBrokerPub mid _ _ _ _ _ =>
-      s <| gw_by_id := delete mid (gw_by_id s) |>
+      match gw_by_id s !! mid with
+      | Some g' => if g' =? g then s <| gw_by_id := delete mid (gw_by_id s) |> else s
+      | None => s
+      end
     end
   end.
 
@@ -544,6 +547,8 @@ Definition set_dup (p : packet) : packet :=
   | _ => p
   end.
 
+Definition same_packet_obj (p q : packet) : bool := beq (pack (set_dup p)) (pack (set_dup q)).
+
 Definition fire (cfg : gw_cfg) (s : gw_state) (k : timer_kind) : R :=
   match k with
   | TmConnect g =>
@@ -566,10 +571,16 @@ Definition fire (cfg : gw_cfg) (s : gw_state) (k : timer_kind) : R :=
                    | RsAck k m => RsAck k m       (* PUBLISH is the only MQTT packet with DUP *)
                    end in
       let s := set_obj s g (TxBrokerPub mid qos st data' snpub (n + 1)) in
-      (* SetDUP mutates the packet object, also where it already sits in the sleep buffer *)
-      let s := s <| gw_buffer := map (fun e => match e with
-                                               | (Some g', p) => if g' =? g then (Some g', set_dup p) else e
-                                               | _ => e end) (gw_buffer s) |> in
+      (* SetDUP mutates the packet object, also where it already sits in the sleep buffer: the buffered
+         entries of this exchange that are the packet being resent (equal to it up to DUP); an MQTT
+         packet being resent touches nothing there *)
+      let s := match data with
+               | RsSn p0 =>
+                 s <| gw_buffer := map (fun e => match e with
+                                                 | (Some g', p) => if (g' =? g) && same_packet_obj p p0 then (Some g', set_dup p) else e
+                                                 | _ => e end) (gw_buffer s) |>
+               | RsAck _ _ => s
+               end in
       let s := arm s (TmRetry g) (retry_delay cfg) in
       match data' with
       | RsSn p =>
